@@ -10,6 +10,7 @@ first and on every later evaluation, user lists and objects must be unchanged.
 from __future__ import annotations
 
 import gc
+import itertools
 from collections import Counter
 
 from .. import classify as KF
@@ -23,7 +24,7 @@ ID = "C04"
 LEVEL = "exploration"
 RULE = ("random histories of 4-10 operations {full, take k+close, take k+keep alive, take k+drop+gc, evaluate while a "
         "user predicate raises at its j-th call, the(...), re-evaluate} over a pool of 2-3 queries sharing 2-3 "
-        "variables (depth<=3 conditions, random selections), caching on and off, with and without a domain listing an "
+        "variables (a tenth of the pools also share one attribute expression object used as condition / operand / selected output; a fifth are rule-tree queries) (depth<=3 conditions, random selections), caching on and off, with and without a domain listing an "
         "object twice; every full evaluation and a final full evaluation of every pool query is compared with the "
         "oracle. Non-trivial: the history contains at least one interrupting operation (partial / raising) before a "
         "full evaluation of a query whose oracle result is neither empty nor the whole product.")
@@ -48,13 +49,25 @@ def plan(tier, seed):
 def floors(tier):
     return {"distinct_nontrivial": 200, "unwind.close": 200, "unwind.exc": 50, "op:full": 500, "op:take": 100,
             "op:abandon": 100, "op:drop": 100, "op:boom_raised": 50, "op:the": 50, "cls:dup_domain": 50,
-            "cls:caching_off": 100, "cache.check.hit": 500, "cls:ruletree_history": 100}
+            "cls:caching_off": 100, "cache.check.hit": 500, "cls:ruletree_history": 100, "cls:shared_expression_pool": 60}
 
 
 def cases(spec, ctx):
     from . import c12
     for i in range(spec["n"]):
         rng = ctx.rng(spec["sub"], i)
+        if rng.random() < 0.1:
+            # queries of a pool may also share an attribute EXPRESSION object, used as a condition by one and as a value
+            # (comparison operand / selected output) by another
+            uses = [rng.choice(["condition", "operand", "selected"]) for _ in range(rng.randint(2, 3))]
+            ops = []
+            for _ in range(rng.randint(3, 8)):
+                kind = rng.choice(["full", "full", "full", "take", "drop"])
+                qi = rng.randrange(len(uses))
+                ops.append([kind, qi] if kind == "full" else [kind, qi, rng.randint(1, 2)])
+            yield {"shared_expr": {"attr": rng.choice(["flag", "flag", "a"]), "uses": uses},
+                   "world": D.random_world(rng, np_=(3, 6), nq=(1, 2)), "ops": ops, "caching": rng.random() < 0.65}
+            continue
         if rng.random() < 0.2:
             ops = []
             for _ in range(rng.randint(2, 6)):
@@ -280,7 +293,63 @@ def check_ruletree_case(case, ctx):
     ctx.sample({"ruletree": case["ruletree"], "ops": case["ops"], "history_log": log})
 
 
+def check_shared_expr_case(case, ctx):
+    from entity_query_language import symbolic_mode, an, entity, set_of, let
+    from entity_query_language.cache_data import enable_caching, disable_caching
+    ctx.cls("cls:shared_expression_pool")
+    world = D.build_world(case["world"])
+    ps = world["P"]
+    m = H.labels_of(world)
+    attr = case["shared_expr"]["attr"]
+    uses = case["shared_expr"]["uses"]
+    (enable_caching if case["caching"] else disable_caching)()
+    log = []
+    try:
+        with symbolic_mode():
+            x = let(D.P, ps)
+            val = getattr(x, attr)
+            qs = []
+            for u in uses:
+                qs.append(an(entity(x, val)) if u == "condition" else an(entity(x, val == False)) if u == "operand"  # noqa: E712
+                          else an(set_of([x, val])))
+
+        def expect(u):
+            if u == "condition":
+                return [m[id(o)] for o in ps if getattr(o, attr)]
+            if u == "operand":
+                return [m[id(o)] for o in ps if getattr(o, attr) == False]  # noqa: E712
+            return [(m[id(o)], repr(getattr(o, attr))) for o in ps]
+        for step, op in enumerate(list(case["ops"]) + [["full", i] for i in range(len(qs))]):
+            u = uses[op[1]]
+            enc = (lambda r: (H.lab(m, r[x]), repr(r[val]))) if u == "selected" else (lambda r: H.lab(m, r))
+            if op[0] == "full":
+                got = [enc(r) for r in qs[op[1]].evaluate()]
+                log.append(["full", op[1], u, len(got)])
+                if got != expect(u):
+                    ctx.fail("SHARED_EXPRESSION:" + u, {"attribute": attr, "uses": uses, "history_log": log, "expected": expect(u), "observed": got})
+                    return
+            else:
+                it = qs[op[1]].evaluate()
+                taken = [enc(r) for r in itertools.islice(it, op[2])]
+                log.append([op[0], op[1], u, len(taken)])
+                if any(t not in expect(u) for t in taken):
+                    ctx.fail("PARTIAL_ROW_NOT_A_SOLUTION", {"history_log": log, "rows": taken})
+                    return
+                if op[0] == "take":
+                    it.close()
+                else:
+                    del it
+                    gc.collect()
+    finally:
+        enable_caching()
+    if len(set(uses)) > 1 and any(not getattr(o, attr) for o in ps):
+        ctx.nontrivial()
+    ctx.sample({"shared_expression": case["shared_expr"], "ops": case["ops"], "history_log": log})
+
+
 def check_case(case, ctx):
+    if "shared_expr" in case:
+        return check_shared_expr_case(case, ctx)
     if "ruletree" in case:
         return check_ruletree_case(case, ctx)
     world = D.build_world(case["world"])
@@ -318,7 +387,7 @@ def check_case(case, ctx):
 def classify(f, ctx):
     """K05 / K02 inside a history: the whole history is re-run under the counterfactual configuration."""
     case = f["case"]
-    if f["kind"] != "SET:missing" or "ruletree" in case:
+    if f["kind"] != "SET:missing" or "ruletree" in case or "shared_expr" in case:
         return None
     from ..shard import reset_eql_state
 
